@@ -91,16 +91,16 @@ TEXT.update({
                     'mapping by mapping and acceptance included, with the expansion written out by hand in the harness (extra programs_bounded).'),
         design_ref='6.13', level_note=CONV_NOTE + ' Partial: the assumptions list the clauses that are not under contract.'),
     'C17': dict(
-        technique='deductive verification (Verus) of the escaping theorem over a specification of systemd\'s ExecStart parsing + verified executable twins run exhaustively on the real escape_one_char / build_service_text',
+        technique='deductive verification (Verus) of the escaping theorem over a specification of systemd\'s ExecStart parsing and of the concatenation shape of the real systemd_arg_escape + verified executable twins run exhaustively on the real escape_one_char / build_service_text',
         level_text=('Two parts. (1) Proof, unbounded in pattern length and position: for EVERY escaper that satisfies the per-character condition char_ok, every non-empty NUL-free pattern, embedded at a word start '
                     'and followed by whitespace or end of line, is read back by systemd\'s documented rules (word splitting, quote handling, C-style unescaping, lone-semicolon rule, %% and $$ expansion) as exactly one '
-                    'word that expands to the pattern, code point for code point (theorem_pattern, by induction with token-locality and un-doubling lemmas). (2) Link to the code by complete enumeration: the verified '
+                    'word that expands to the pattern, code point for code point (theorem_pattern, by induction with token-locality and un-doubling lemmas). (2) Link to the code: systemd_arg_escape is verified to return esc_str(esc1, text), the concatenation of the per-character results of escape_one_char (no look-ahead, no dependence on neighbours: the shape the theorem is stated for); the per-character condition is decided by complete enumeration: the verified '
                     'executable char_ok_exec (ensures r == char_ok) is evaluated on the real escape_one_char for all 1,112,063 Unicode scalar values; additionally the verified words_exec / arg_of_exec decode the '
                     'ExecStart line of the real build_service_text for every single-scalar pattern (exhaustive), all pairs and triples over the syntax-relevant characters and seeded random lists, checking the fixed '
                     'arguments, `--exclude p` per pattern and `--dev-file /%I`. The check is semantic: any other correct escaping passes.'),
         design_ref='6.17',
-        level_note=('Trusted: Verus/Z3/rustc; the systemd specification in spec/sd.rs; the four functions of udev_utils.rs are compiled verbatim, not verified (str iterators and format! are outside Verus); the concatenation behaviour of '
-                    'systemd_arg_escape / build_exclude_text / build_service_text is assumed and exercised, not proved. The enumeration part is reported as enumerative (exhaustive for single characters), never as discharged obligations.')),
+        level_note=('Trusted: Verus/Z3/rustc; the systemd specification in spec/sd.rs; systemd_arg_escape is verified (concatenation of per-character escapes); escape_one_char is external_body (format! arms) with the assumed contract that it is a function of its argument; build_exclude_text / build_service_text are compiled verbatim, not verified (iterator adapters, format!): how they '
+                    'embed the escaped patterns in the command line is assumed and exercised, not proved. The enumeration part is reported as enumerative (exhaustive for single characters), never as discharged obligations.')),
 })
 
 TEXT.update({
